@@ -2,6 +2,7 @@
 import Y0.Model.Graph
 import Y0.Model.Expr
 import Y0.Model.Trso
+import Y0.Model.TrsoUse
 import Y0.Model.CtfTr
 import Y0.Driver.Graph
 
@@ -61,6 +62,10 @@ def handleTransport (op : String) (args : List Sexp) : Option Sexp := do
   | "identify", [g, y, x, so, si] =>
       pure (tr_optExprToSexp (identifyTargetOutcomes dSeparated (← parseGraph g) (← asNats? y) (← asNats? x)
         (← tr_parseAssoc so) (← tr_parseAssoc si)))
+  | "uses_line6", [g, y, x, so, si] =>
+      -- the hypothesis of `trso_no_usable_surrogate_iff_id` (Props/C05Usable): does the run find a usable source domain at line 6?
+      pure (tagged "ok" [tr_boolSexp (identifyUsesLine6 dSeparated (← parseGraph g) (← asNats? y) (← asNats? x)
+        (← tr_parseAssoc so) (← tr_parseAssoc si))])
   | "nodes_to_transport", [g, z, w] =>
       pure (exceptToSexp ofNats (getNodesToTransport (← parseGraph g) (← asNats? z) (← asNats? w)))
   | "transport_diagram", [g, ns] =>
